@@ -42,10 +42,10 @@ CLAIMS = {
          "Tie: every allocate/deallocate of the implementation (identity, unit size, count, block) vs the model's, guard zones, leak oracle at the end of every script, special-member histories over 6 (quick) / 32 (thorough) allocator kinds.",
          "5 C07"),
  "C08": ("proof (case analysis over allocator traits on the world model) + correspondence over allocator kinds",
-         "Theorems C08_copy_construction / copy_assignment / move_assignment / move_assignment_elementwise / swap: allocator identity after every special member for every allocator kind, with value semantics. Tie: get_allocator() and the allocating identity of every block in special-member histories.",
+         "Theorems C08_copy_construction / copy_assignment / move_assignment / move_assignment_elementwise / swap: allocator identity after every special member for every allocator kind, with value semantics; C08_*_every_list (NtWorld.v): copy construction, copy assignment and move assignment (both paths) for EVERY well-formed list, non-trivial value types included. Tie: get_allocator() and the allocating identity of every block in special-member histories.",
          "5 C08"),
  "C09": ("proof (world-level refinement: relocate_rep) + correspondence on multi-vector histories",
-         "Theorems C09_copy_construction / copy_assignment / move_assignment / swap / moved_from_state: targets represent the source's list of tuples, sources unchanged (or moved-from), for every list of trivially relocatable types, allocator kind, target state. Tie: both operands observed after every step of random copy/move/swap histories.",
+         "Theorems C09_copy_construction / copy_assignment / move_assignment / swap / moved_from_state: targets represent the source's list of tuples, sources unchanged (or moved-from), for every list of trivially relocatable types, allocator kind, target state; C09_copy_construction_every_list / _copy_assignment_every_list / _move_assignment_every_list (NtWorld.v): the same for EVERY well-formed list, non-trivial value types included (relocation through copy/move constructors reproduces every byte; copies leave the source record untouched; an element-wise move leaves the source its block with moved-from objects). Tie: both operands observed after every step of random copy/move/swap histories.",
          "5 C09"),
  "C10": ("proof (corollary of the refinement) + correspondence; known finding on the capacity promise",
          "Theorems C10_reserve_keeps_contents (Rep preserved, capacity = max, fixed sizes kept) and C10_reserve_within_capacity_is_noop. The promise 'n elements / b bytes then fit': C10_reserve_reestablishes_the_budget and C10_after_reserve_everything_fits (history invariant of C02: after a growing reserve(n, b) any valid history up to n elements / b bytes keeps every element inside the new block; trivially relocatable lists with benign tail; known finding for the other lists). Tie: histories with reserve at every fill level; reserve-then-fill-to-the-limits under guard zones.",
